@@ -18,8 +18,8 @@ LEVEL_TEXT = ('Lean 4 theorems about an executable list model of Spectrum whose 
               'sample above tolerance; retained samples are unaltered; `integrate s a b` is linear in the values and additive at a sample '
               '(integrate_linear, integrate_additive_at_sample), the trapezoid sum is exact on globally linear data; both rules return one bin per centre (bin_length); trapezoid bins of a non-negative spectrum are non-negative (bin_trapz_nonneg, about `bin` itself) '
               'and, with power preservation, sum to integrate over the centres\' span; refusals leave the spectrum (append/resample/trim/pad) or an emptied grid (crop).')
-LEVEL_NOTE = ('partial: exactness of trapezoid bins for spectra linear across each bin, exactness for piecewise-linear data, the '
-              'Simpson bin count and every Simpson/scipy.integrate.simpson clause are oracle-only. Open known finding KF-C15-bin-integer-centres. '
+LEVEL_NOTE = ('partial: exactness of trapezoid bins for spectra linear across each bin, exactness for piecewise-linear data, '
+              'non-negativity/exactness of Simpson bins and every scipy.integrate.simpson clause are oracle-only. Open known finding KF-C15-bin-integer-centres. '
               'Trusted: scipy interp1d(kind=linear) = piecewise-linear interpolant with fill; np.linspace, np.delete, np.trapz as modelled.')
 TECHNIQUE = 'Lean 4 proof (induction over lists and over operation histories) about a hand model + per-step differential correspondence at ℚ'
 GEN = ['SpectrumOps']
